@@ -6,6 +6,7 @@ import (
 	"time"
 
 	"github.com/miekg/dns"
+	"github.com/semihalev/sdns/middleware"
 )
 
 // Accessors for the C02 expiry ops (no behaviour change).
@@ -43,4 +44,18 @@ func VerifC02LookupCut(c *Cache, req *dns.Msg) (*dns.Msg, bool) {
 func VerifC02LookupCutWire(c *Cache, wireName []byte, qclass uint16) bool {
 	e, ok := c.store.LookupNXDomainCutWire(wireName, qclass)
 	return ok && e != nil
+}
+
+// VerifC02WriteBack publishes a validated proof the way the prefetch worker's
+// write-back does (Store.RecordDenialProof, then Store.RecordNXDomainCut for an
+// NXDOMAIN): no exact-entry, cut or proof lookup in front of it.
+func VerifC02WriteBack(c *Cache, proof *dns.Msg, subject, zone string, nsec3 bool, cutUntil time.Time) {
+	kind := middleware.ValidatedNegativeProofNSEC
+	if nsec3 {
+		kind = middleware.ValidatedNegativeProofNSEC3
+	}
+	c.store.RecordDenialProof(proof, zone, kind, cutUntil)
+	if proof.Rcode == dns.RcodeNameError {
+		c.store.RecordNXDomainCut(proof, subject, zone, cutUntil)
+	}
 }
